@@ -549,6 +549,13 @@ func (broker *Broker) canDelete(file sts.File) bool {
 	return false
 }
 
+// changed returns whether the file in the store is no longer the version that
+// was cached (and sent)
+func (broker *Broker) changed(cached sts.Cached) bool {
+	f, err := broker.Conf.Store.Sync(cached)
+	return f != nil && err == nil
+}
+
 func (broker *Broker) scan() []sts.Hashed {
 	var err error
 	var files []sts.File
@@ -615,6 +622,11 @@ func (broker *Broker) scan() []sts.Hashed {
 			// Add any that might have failed the hash calculation last time
 			wrapped = append(wrapped, &hashFile{File: cached})
 		case cached.IsDone() && broker.canDelete(cached):
+			if broker.changed(cached) {
+				// Only the version that was confirmed may be deleted; what
+				// is there now was found by the scan and will be sent
+				break
+			}
 			err = broker.Conf.Store.Remove(cached)
 			if err != nil {
 				broker.error("Failed to delete aged file:", cached.GetName())
@@ -1286,7 +1298,7 @@ func (broker *Broker) finish(file sts.Polled) {
 		// would eventually be removed from the cache (age off) and then get
 		// picked up again to be sent redundantly.
 		broker.Conf.Cache.Done(file.GetName(), func(cached sts.Cached) {
-			if broker.canDelete(cached) {
+			if broker.canDelete(cached) && !broker.changed(cached) {
 				if err := broker.Conf.Store.Remove(cached); err != nil {
 					broker.error("Failed to delete:", cached.GetName(), err.Error())
 					return
